@@ -521,8 +521,8 @@ def single_owner_rule(ctx, program, rid):
                       msg=f"`{short(site)}` in {u.uid}: the new {site.func.id} receives `{', '.join(shared)}`, which its previous holder keeps as well; {where} of whichever "
                       f"holder dies first calls trigger_stop() on the shared function: its triggers are cancelled and its services removed while it is still bound",
                       key=f"shared EvalFunc {site.func.id} <- {', '.join(shared)}", node=site, rel="eval.py")
-    if n_sites < 3:
-        raise AnalysisError(f"only {n_sites} EvalFuncVar construction sites found")
+    if n_sites < 1:  # (how many sites there are is not part of the rule: duplicated branches may be merged)
+        raise AnalysisError("no EvalFuncVar construction site found")
 
 
 def own_ident_rule(ctx, program, rid):
